@@ -83,6 +83,10 @@ mod verif_c01_pool {
             let a = frame.start_address().as_u64();
             let k = self.lookup(a);
             if k == NONE {
+                // the mapper asks for a frame that is not a page table of the hierarchy: recorded
+                // (named obligation `no_access_outside_page_tables`), and answered with the null
+                // pointer so that a dereference is also a Kani pointer-check failure
+                ghost().outside += 1;
                 core::ptr::null_mut()
             } else {
                 self.p[k]
@@ -165,15 +169,36 @@ mod verif_c01_pool {
     }
     pub(super) use mk_pool;
 
+    /// Checks every listed clause on its own path. `kani::assert` also ASSUMES its condition
+    /// afterwards, so in a plain sequence a failing earlier clause would hide a failing later one
+    /// (and with it the later obligation). All clause values are computed before this is called.
+    macro_rules! each {
+        ($( $c:expr => $m:expr ),+ $(,)?) => {{
+            let pick: u8 = kani::any();
+            let mut k: u8 = 0;
+            $(
+                if pick == k {
+                    kani::assert($c, $m);
+                }
+                k += 1;
+            )+
+            let _ = k;
+        }};
+    }
+    pub(super) use each;
+
     // ------------------------------------------------------------------ indices and addresses
 
     #[derive(Clone, Copy)]
     pub(super) struct Idx(pub [usize; 4]); // [p4, p3, p2, p1]
 
-    pub(super) const IDX_LO: Idx = Idx([0, 0, 0, 0]); // first page of the lower half
-    pub(super) const IDX_HI: Idx = Idx([511, 511, 511, 511]); // last page of the upper half
-    pub(super) const IDX_MID: Idx = Idx([255, 511, 0, 1]); // last P4 slot of the lower half
-    pub(super) const IDX_UP: Idx = Idx([256, 1, 510, 255]); // first P4 slot of the upper half
+    // The four enumerated index tuples. Within a tuple the indices are pairwise distinct (so using
+    // the index of one level at another level is visible); across the tuples every level sees its
+    // first and its last slot, and P4 sees both sides of the canonical-half boundary (255 | 256).
+    pub(super) const IDX_LO: Idx = Idx([0, 1, 511, 2]); // lower half, first P4 slot
+    pub(super) const IDX_HI: Idx = Idx([511, 510, 1, 0]); // upper half, last P4 slot
+    pub(super) const IDX_MID: Idx = Idx([255, 511, 0, 256]); // last P4 slot of the lower half
+    pub(super) const IDX_UP: Idx = Idx([256, 0, 510, 511]); // first P4 slot of the upper half
 
     /// One of the four enumerated tuples, chosen by the solver (quick tier).
     pub(super) fn enumerated_idx() -> Idx {
@@ -320,6 +345,9 @@ mod verif_c01_pool {
     pub(super) const HUGE: u8 = 1; // P | PS leaf (only at P3, P2)
     pub(super) const LEAF: u8 = 2; // present P1 entry
     pub(super) const ANY: u8 = 3; // 0 or a leaf of that level (used below a table entry whose content is irrelevant)
+    /// 0, or ANY present word of the leaf class of that level: at P3 / P2 a word with P and PS whose
+    /// address bits are arbitrary (also misaligned for the page size), at P1 any present word
+    pub(super) const SYM: u8 = 4;
 
     /// `d` table-pointing entries lead down from P4 (level j -> pool table j+1); the entry at
     /// level `d` (0 = P4 .. 3 = P1) is `end`.
@@ -337,6 +365,9 @@ mod verif_c01_pool {
     pub(super) const P2_TABLE: Shape = Shape { d: 3, end: ANY }; // for 2 MiB operations
     pub(super) const P1_ABSENT: Shape = Shape { d: 3, end: ABSENT };
     pub(super) const P1_LEAF: Shape = Shape { d: 3, end: LEAF };
+    pub(super) const P3_SYM: Shape = Shape { d: 1, end: SYM };
+    pub(super) const P2_SYM: Shape = Shape { d: 2, end: SYM };
+    pub(super) const P1_SYM: Shape = Shape { d: 3, end: SYM };
 
     /// symbolic word that points to pool table `k`: P, not PS, address = f[k], other bits free
     pub(super) fn any_table_word(pool: &Pool, k: usize) -> u64 {
@@ -363,6 +394,11 @@ mod verif_c01_pool {
             ABSENT => 0,
             HUGE => any_huge_word(level),
             LEAF => any_leaf_word(),
+            SYM => {
+                let w: u64 = kani::any();
+                kani::assume(w == 0 || (w & P != 0 && (level == 3 || w & PS != 0)));
+                w
+            }
             _ => {
                 if kani::any() {
                     0
@@ -436,6 +472,8 @@ mod verif_c01_pool {
         pub zero_seq: [u32; NT],
         pub zero_calls: [u32; NT],
         pub zero_elsewhere: u32,
+        /// number of frame_to_pointer requests for a frame outside the pool
+        pub outside: u32,
     }
     pub(super) static mut GHOST: Ghost = Ghost {
         ptrs: [core::ptr::null(); NT],
@@ -444,6 +482,7 @@ mod verif_c01_pool {
         zero_seq: [0; NT],
         zero_calls: [0; NT],
         zero_elsewhere: 0,
+        outside: 0,
     };
     #[allow(static_mut_refs)]
     pub(super) fn ghost() -> &'static mut Ghost {
@@ -665,12 +704,15 @@ mod verif_c01_pool {
     pub(super) const E_ABSENT: u8 = 0;
     pub(super) const E_LEAF: u8 = 1; // a leaf entry of exactly this level's page size
     pub(super) const E_TABLE: u8 = 2; // points to a lower table
+    pub(super) const E_MISALIGNED: u8 = 3; // P | PS with address bits below the page size set
     /// what the entry at level `n` is (valid when model_reach == REACHED, n <= sh.d)
     pub(super) fn entry_kind(sh: Shape, pre: &Pre, n: usize) -> u8 {
         if n < sh.d {
             E_TABLE
         } else if pre.e[n] == 0 {
             E_ABSENT
+        } else if (n == 1 && pre.e[n] & ADDR & !ADDR_1G != 0) || (n == 2 && pre.e[n] & ADDR & !ADDR_2M != 0) {
+            E_MISALIGNED
         } else {
             E_LEAF
         }
